@@ -17,11 +17,13 @@ import (
 	"time"
 
 	"pgregory.net/rapid"
+	"verif/cluster"
 	"verif/sim"
 	"verif/stats"
 )
 
 func TestMain(m *testing.M) {
+	cluster.RunRemoteServerIfAsked() // this process may have been started as a server instance of a multi-process deployment
 	sim.Silence()
 	loadKnown()
 	os.Exit(m.Run())
